@@ -47,6 +47,8 @@ def gen_cases(tier, seed):
             elif f < 0.6:
                 d["retry"] = 3
                 d["faults"] = {"p": 0.3, "kinds": ["exc"], "flaky": True, "max_flaky": 2}
+            elif f < 0.75:
+                d["transform"] = r.choice(["copy_add", "inplace_add", "copy_same"])
         else:
             d["steps"] = r.randint(0, 5)
         out.append(d)
@@ -114,8 +116,29 @@ def make_progress(desc, tmpdir=None):
 
 def run_case(desc):
     recs, progress = make_progress(desc)
+    extra_calls = []
     if desc["mode"] == "plain":
-        R = plainrun.execute(desc, progress=progress, record_args=False)
+        xkw = None
+        if desc.get("transform"):
+            tmode = desc["transform"]
+
+            def extra_fn(*a):
+                extra_calls.append(1)
+                return a[0] if a else None
+
+            extra_fn.__name__ = extra_fn.__qualname__ = "extra"
+            extra_fn.__module__ = "vmonfn"
+
+            def tp(p, out):
+                # a transformation of the physical plan: returns a NEW plan object (or the same one) with one more call
+                q = p if tmode == "inplace_add" else p.copy()
+                if tmode == "copy_same":
+                    return q, out
+                new = q.call(extra_fn, out) if out is not None else q.call(extra_fn)
+                return q, new
+
+            xkw = {"transform_physical": tp}
+        R = plainrun.execute(desc, progress=progress, record_args=False, extra_run_kwargs=xkw)
         H, ir = R.H, R.ir
         exc = R.exc
         balanced = all(k in ("exc", "value", "callerr") for k, _ in R.fail.values())
@@ -154,6 +177,8 @@ def run_case(desc):
                 n = ir.nodes[i]
                 want[(*n.scope, "vmonfn." + n.fname)] += 1
             want.update(expected_builtin_totals(ir, None))
+            if desc.get("transform") in ("copy_add", "inplace_add"):
+                want[("vmonfn.extra",)] += 1  # the call added by transform_physical is part of the plan that runs
             want = +want
             if run_tot != want:
                 extra = {k: v for k, v in run_tot.items() if want.get(k) != v}
